@@ -598,6 +598,9 @@ func (r *vRun) newWorld() *vWorld {
 }
 
 func (w *vWorld) body(tag string) []byte {
+	if tag == "s" && w.rnd.Intn(8) == 0 {
+		return []byte{} // an empty capture is a file like any other: its name is taken afterwards
+	}
 	var b bytes.Buffer
 	fmt.Fprintf(&b, "VB-%d-%d-%s-%08x-%08x\n", w.id, w.nreq, tag, w.rnd.Uint32(), w.rnd.Uint32())
 	n := 0
@@ -636,7 +639,7 @@ func vReads(s *vScan, body []byte) []vRead {
 	}
 	sort.Strings(keys)
 	for _, k := range keys {
-		if bytes.Contains(body, s.content[k]) {
+		if len(s.content[k]) != 0 && bytes.Contains(body, s.content[k]) { // (an empty file cannot be recognised in a response)
 			i := strings.IndexByte(k, 0)
 			res = append(res, vRead{Z: k[:i], N: vq(k[i+1:])})
 		}
